@@ -1,6 +1,7 @@
 package main
 
 import (
+	"strconv"
 	"fmt"
 	"go/ast"
 	"go/types"
@@ -18,6 +19,7 @@ type modItem struct {
 	sl      Val    // for elems
 	elemInt bool
 	src     string
+	private bool // representation-private: invisible to callers in other packages
 }
 
 func heapOfKind(k Kind) string {
@@ -55,6 +57,14 @@ func (e *Env) evalModItems(exprs []ast.Expr) []modItem {
 		if call, ok := x.(*ast.CallExpr); ok {
 			if id, ok := call.Fun.(*ast.Ident); ok {
 				switch id.Name {
+				case "private":
+					// private(item): part of the package-private representation of the receiver
+					sub := e.evalModItems(call.Args)
+					for _, it := range sub {
+						it.private = true
+						out = append(out, it)
+					}
+					continue
 				case "when":
 					// when(cond, item)
 					c := e.eval(call.Args[0])
@@ -77,6 +87,30 @@ func (e *Env) evalModItems(exprs []ast.Expr) []modItem {
 						e.r.assumeFieldTypes(e.st, ref, derefType(v.T), 0)
 					}
 					out = append(out, modItem{kind: "star", ref: ref, src: src})
+					continue
+				case "alloftype":
+					// every cell (field, ghost field, map cell, ghost family cell) of every object of a type,
+					// named by a string ("*T") or by an expression of that static type
+					var t types.Type
+					if lit, ok := call.Args[0].(*ast.BasicLit); ok {
+						name, _ := strconv.Unquote(lit.Value)
+						t = e.r.W.lookupType(name)
+						if t == nil {
+							e.fail("alloftype: unknown type %s", name)
+							continue
+						}
+					} else {
+						v := e.eval(call.Args[0])
+						if e.err != nil {
+							continue
+						}
+						t = v.T
+						if t == nil {
+							e.fail("alloftype(%s): expression has no static type", src)
+							continue
+						}
+					}
+					out = append(out, modItem{kind: "type", ref: fmt.Sprint(e.r.W.tagFor(derefOrSelf(t))), src: src})
 					continue
 				case "fs":
 					// the whole ghost file system
@@ -143,6 +177,10 @@ func inFrameCell(items []modItem, k, r string) string {
 			ds = append(ds, guard(it, sx("withineq", r, it.ref)))
 		case "star":
 			ds = append(ds, guard(it, sx("within", r, it.ref)))
+		case "type":
+			ds = append(ds, guard(it, sOr(
+				sAnd(sNot(sEq(sx("parent", r), "null")), sEq(sx("tyof", sx("parent", r)), it.ref)),
+				sAnd(sNot(sEq(sx("parent", sx("parent", r)), "null")), sEq(sx("tyof", sx("parent", sx("parent", r))), it.ref)))))
 		case "elems":
 			if !it.elemInt {
 				for _, rr := range []string{r, sx("parent", r), sx("parent", sx("parent", r))} {
@@ -220,7 +258,7 @@ func (r *FnRun) havocItems(st *State, items []modItem) {
 					}
 					r.setHeap(st, k, sx("store", st.heap[k], it.ref, fv))
 				}
-			case "sub", "star":
+			case "sub", "star", "type":
 				wide = append(wide, it)
 			case "elems":
 				if !it.elemInt {
@@ -325,6 +363,20 @@ func (r *FnRun) checkFrameCall(st *State, site ssa.Instruction, items []modItem,
 	}
 	for _, it := range items {
 		var goal string
+		if it.kind == "type" {
+			goal = "false"
+			for _, mine := range r.frame {
+				if mine.kind == "type" && mine.ref == it.ref && (mine.cond == "" || mine.cond == "true") {
+					goal = "true"
+				}
+			}
+			short := callee
+			if i := strings.LastIndex(short, "."); i >= 0 {
+				short = short[i+1:]
+			}
+			r.check(st, "frame", sanitize(short+"."+it.src), site, goal, "frame of callee "+callee+" ("+it.src+") is inside the caller's modifies frame")
+			continue
+		}
 		if it.kind == "elems" && r.isFreshRef(it.sl.Bas) || it.kind != "elems" && r.isFreshRef(it.ref) {
 			continue
 		}
@@ -344,6 +396,12 @@ func (r *FnRun) checkFrameCall(st *State, site ssa.Instruction, items []modItem,
 						ds = append(ds, sx("withineq", it.ref, mine.ref))
 					} else {
 						ds = append(ds, sx("within", it.ref, mine.ref))
+					}
+				case "type":
+					// a whole object of a type whose every cell is in the frame (cells up to two
+					// levels below the object; maps, lists and flat structs are that shallow)
+					if mine.cond == "" || mine.cond == "true" {
+						ds = append(ds, sAnd(sx("(_ is obj)", it.ref), sEq(sx("tyof", it.ref), mine.ref)))
 					}
 				}
 			}
@@ -382,6 +440,9 @@ func (r *FnRun) execCall(st *State, site ssa.Instruction, call *ssa.CallCommon, 
 	case *ssa.Builtin:
 		return r.builtin(st, site, f, call, args, resT)
 	case *ssa.Function:
+		if r.lockHook(st, site, f, call.Args, args) {
+			return unitVal()
+		}
 		return r.callStatic(st, site, f, args, nil, resT)
 	case *ssa.MakeClosure:
 		fn := f.Fn.(*ssa.Function)
@@ -644,6 +705,9 @@ func (r *FnRun) runDefers(st *State, site *ssa.RunDefers) {
 		case *ssa.Builtin:
 			r.builtin(st, site, f, call, d.args, nil)
 		case *ssa.Function:
+			if r.lockHook(st, site, f, call.Args, d.args) {
+				continue
+			}
 			r.callStatic(st, site, f, d.args, nil, call.Signature().Results())
 			if st.panicked {
 				return
@@ -751,6 +815,18 @@ func (r *FnRun) applyContract(st *State, site ssa.Instruction, c *Contract, name
 	if env.err != nil {
 		r.errorf("%s: modifies of %s: %v", r.shortFn(), name, env.err)
 		return r.freshVal(st, resT, "res")
+	}
+	if fn != nil && fn.Pkg != nil && r.Fn.Pkg != fn.Pkg {
+		// representation-private frame items do not exist for callers in other packages
+		var vis []modItem
+		for _, it := range items {
+			if it.private {
+				r.Assump["the package-private representation of "+fn.Pkg.Pkg.Name()+" ("+it.src+") is reachable only through unexported fields; code outside that package holds no references into it, so calls change nothing such code can name"] = true
+				continue
+			}
+			vis = append(vis, it)
+		}
+		items = vis
 	}
 	if len(items) > 0 {
 		r.checkFrameCall(st, site, items, name)
@@ -1437,6 +1513,28 @@ func (r *FnRun) atReturn(st *State, res []Val, site ssa.Instruction) {
 	if len(res) == 1 {
 		env.vars["result"] = res[0]
 	}
+	for _, gs := range r.C.GhostSets {
+		v := env.eval(gs.RHS)
+		ref, _, sort := env.evalAddr(gs.LHS)
+		if env.err != nil || sort == "" {
+			if env.err == nil {
+				env.err = fmt.Errorf("left side is not a ghost cell")
+			}
+			r.unstatable(st, "post", "ghostset", &Clause{Src: gs.Src}, env.err)
+			env.err = nil
+			continue
+		}
+		hk := heapOfSort(sort)
+		val := v.S
+		if v.K == KSlice || v.K == KIface || v.K == KStruct {
+			r.unstatable(st, "post", "ghostset", &Clause{Src: gs.Src}, fmt.Errorf("right side must be a scalar, reference or sequence"))
+			continue
+		}
+		// the ghost cell must be inside the declared frame (callers havoc only the frame)
+		fo := r.oblig(st, "frame", "ghostset", nil, sOr(sx(">=", sx("rootid", ref), r.alloc0), inFrameCell(r.frame, hk, ref)), "ghostset target is inside the modifies frame: "+gs.Src, r.C.Serves)
+		fo.Clause = gs.Src
+		r.setHeap(st, hk, sx("store", st.heap[hk], ref, val))
+	}
 	for i, en := range r.C.Ensures {
 		g := env.eval(en.Expr)
 		if env.err != nil {
@@ -1713,4 +1811,67 @@ func (r *FnRun) assumeGlobalInvs(st *State) {
 		st.assume(v.S)
 		r.Assump["global invariant "+gi.Name+" (variables written only by the package initialiser; their backing arrays are assumed immutable): "+gi.Src] = true
 	}
+}
+
+func derefOrSelf(t types.Type) types.Type {
+	if d := derefType(t); d != nil {
+		return d
+	}
+	return t
+}
+
+// lockHook: Lock/Unlock of a sync.Mutex embedded in a type that declares a lock invariant.
+func (r *FnRun) lockHook(st *State, site ssa.Instruction, f *ssa.Function, ssaArgs []ssa.Value, args []Val) bool {
+	if len(r.W.Specs.LockInvs) == 0 || len(ssaArgs) != 1 {
+		return false
+	}
+	name := f.String()
+	if name != "(*sync.Mutex).Lock" && name != "(*sync.Mutex).Unlock" {
+		return false
+	}
+	fa, ok := ssaArgs[0].(*ssa.FieldAddr)
+	if !ok {
+		return false
+	}
+	li := r.W.Specs.LockInvs[typeKey(derefType(fa.X.Type()))]
+	if li == nil {
+		return false
+	}
+	owner := r.val(st, fa.X)
+	env := &Env{r: r, st: st, old: r.entry, vars: map[string]Val{"self": owner}, fn: r.Fn}
+	if r.entryEnv != nil {
+		env.pkg = r.entryEnv.pkg
+	}
+	if name == "(*sync.Mutex).Lock" {
+		items := env.evalModItems(li.Items)
+		if env.err != nil {
+			r.errorf("%s: lockinv %s: %v", li.File, li.Type, env.err)
+			return true
+		}
+		r.checkFrameCall(st, site, items, "Lock")
+		r.havocItems(st, items)
+		r.bumpAlloc(st)
+		r.assumeGlobalInvs(st)
+		env2 := &Env{r: r, st: st, old: r.entry, vars: map[string]Val{"self": owner}, fn: r.Fn, pkg: env.pkg}
+		g := env2.eval(li.Inv)
+		if env2.err != nil {
+			r.errorf("%s: lockinv %s: %v", li.File, li.Type, env2.err)
+			return true
+		}
+		st.assume(g.S)
+		r.Assump["lock invariant of "+li.Type+" assumed when its mutex is acquired: the protected state is arbitrary (other goroutines) but satisfies the invariant, which the constructor establishes and every Unlock must re-establish; sync.Mutex mutual exclusion is trusted"] = true
+		return true
+	}
+	g := env.eval(li.Inv)
+	if env.err != nil {
+		r.errorf("%s: lockinv %s: %v", li.File, li.Type, env.err)
+		return true
+	}
+	props := []string(nil)
+	if r.C != nil {
+		props = r.C.Serves
+	}
+	o := r.oblig(st, "lockinv", "unlock", site, g.S, "lock invariant of "+li.Type+" holds when the mutex is released", props)
+	o.Clause = li.Src
+	return true
 }
